@@ -324,6 +324,28 @@ def r4(ctx, facts, cfg):
     rp = cpos(oa, r"^(std::)?raise$")
     ctx.ob("C07.R4i", "on_alarm:default-then-raise", bool(sd) and bool(rp) and all(g.dominates(sd, p) for p in rp),
            "the timeout handler restores the default action and re-raises", fn=oa)
+    # R4k: the handler finds a logger whenever one exists: the named logger is used only when it was found valid, every other path
+    # falls back to any valid logger
+    gl = facts.need("quill::detail::SignalHandlerContext::get_logger", cfg)[0]
+    gg = gl.g
+    fb = cpos(gl, r"LoggerManager::get_valid_logger$")
+    ok_edges = []
+    lookups = set()
+    for vid, i in gl.var_inits().items():
+        pass
+    for n in gl.walk():
+        if n["k"] == "BinaryOperator" and n["op"] == "=" and var_ref(n["lhs"]) is not None and any(is_call(x, r"LoggerManager::get_logger$") for x in walk(n["rhs"])):
+            lookups.add(var_ref(n["lhs"]))
+    for vid, i in gl.var_inits().items():
+        if isnode(i) and any(is_call(x, r"LoggerManager::get_logger$") for x in walk(i)):
+            lookups.add(vid)
+    for (b, t, c) in branches_on_call(gl, r"LoggerBase::is_valid_logger$"):
+        ok_edges.append((b, t))
+    ok = bool(fb) and not gg.exists_path([gg.entry_node], [gg.exit_node], avoid_nodes=fb, avoid_edges=ok_edges)
+    ctx.ob("C07.R4k", "SignalHandlerContext::get_logger:falls-back-to-any-valid-logger", ok,
+           "the signal handler's logger lookup returns the configured logger only when it was found valid and otherwise falls back to any "
+           "valid logger on every path (a missing or removed configured logger must not silence the handler: no notice, no flush, no "
+           "re-raise)", fn=gl)
     sh = facts.cls("quill::SignalHandlerOptions", cfg)
     if not sh:
         raise AnalysisBroken("SignalHandlerOptions not found")
